@@ -526,8 +526,9 @@ def t18_stack(run, fx, floors=True):
                     run.ok(rule, "%s: max_len %d <= array of %d" % (b.path, max(known), size))
                 else:
                     run.ok(rule, "%s: array of %d, max_len chosen at run time (bounded by the callers' constants, not decided here)" % (b.path, size))
-    if floors and n < 5:
-        run.anchor_missing(rule, "ArgumentsStack constructions over fixed arrays (found %d)" % n)
+    if floors:
+        # 5 on the prince configuration; without `outline` the glyph-outline interpreters are not compiled (4)
+        run.floor(rule, "ArgumentsStack constructions over fixed arrays", n, 5)
 
 
 # ---- T18-PATH: per-operator path construction ---------------------------------------------------------------------------------
